@@ -567,6 +567,9 @@ func checkC01(p *Prog, r *Report) {
 	r.Explanation = "Structural necessary conditions of 'incremental == clean' on the up-to-date predicate (found by identity: the bool function of package build that calls readRuleHashFromXattrs). (1) gate completeness via return-case facts: every return that can say 'no need to build' is dominated by the equality edge of a bytes.Equal between each stored part (config, rule, source, secret) and the freshly computed value of the same kind, by nil errors of sourceHash/secretHash, by the metadata-file existence test, and is reached only through the loop over target.Outputs() whose missing-output edge returns true; every inequality edge returns true. (2) table agreement: the byte layout written by targetHash/writeRuleHash (rule(pre) rule(post) config source secret) equals the constant slices read by readRuleHashFromXattrs. (3) source hash coverage: sourceHash hashes, by content (timestamp=false) and name, every path of core.IterSources and every tool path, writes each result to the hash and never drops a hashing error. (4) buildTarget leaves through the 'nothing to do' return only under needsBuilding()==false. (5) unchanged-output detection in moveOutput is by content-hash equality. Rule-hash field coverage/framing is decided under C08 and tree hashing under C09."
 	r.NotCovered = []string{"byte equality of plz-out over real edit histories", "filegroup special cases", "remote execution", "hash collisions"}
 	p.hardlinkMarkerRule(r, "fs/E9.hardlink-marker-protocol")
+	p.memoEveryHashRule(r, "fs/E5.every-hash-memoised")
+	// an incremental build may restore from the cache over outputs of another state: what is restored must replace them
+	importRules(p, r, checkC12, "cache/", "E9.archive-writer-reader", "E5.retrieve-clears-the-way")
 	a := p.gate(r, "E5.gate-completeness")
 	if a == nil {
 		return
@@ -668,6 +671,8 @@ func checkC03(p *Prog, r *Report) {
 	p.sourceHashContentOnly(r, a)
 	p.outputExistenceAcceptsDirs(r, a)
 	p.recordNotDestroyed(r, a)
+	p.dataStaysData(r)
+	p.onlyOneHashMemo(r)
 	// (4) MoveHash before the move
 	rule := "E5.movehash-before-move"
 	mo := a.moveOutput
@@ -997,4 +1002,104 @@ func (p *Prog) recordNotDestroyed(r *Report, a *gateAnchors) {
 		}
 	}
 	r.check(!bad, rule, "the metadata file is not rewritten after the rule hash was recorded", p.pos(site), fnName(a.buildTarget), itoa(nS)+" StoreTargetMetadata call(s) in buildTarget, none reachable from calculateAndCheckRuleHash", "buildTarget stores the target metadata (which removes and recreates the metadata file) after calculateAndCheckRuleHash stamped the rule-hash record on that file: for a rule with no declared outputs (only output_dirs / a post-build function) this is the only record, so the next invocation finds none and rebuilds, every time")
+}
+
+// dataStaysData: a label that is only data must not become a build input (its outputs would be hashed into the
+// source hash and the rule re-run whenever the data changes). AddDependency clears the data-only flag of an entry that
+// already exists ("it's not only data any more"), so every adder of data that goes through AddDependency has to set
+// the flag again afterwards, on every path - also when the same label is added as data a second time.
+func (p *Prog) dataStaysData(r *Report) {
+	rule := "E5.data-flag-re-established"
+	amed := p.Fn("core", "BuildTarget.AddMaybeExportedDependency")
+	addDep := p.Fn("core", "BuildTarget.AddDependency")
+	if amed == nil || addDep == nil {
+		r.unresolved(rule, "core.BuildTarget.AddMaybeExportedDependency / AddDependency")
+		return
+	}
+	clears := false
+	eachInstr(amed, false, func(_ *ssa.Function, i ssa.Instruction) {
+		if st, ok := i.(*ssa.Store); ok && fieldKey(st.Addr) == "core.depInfo.data" {
+			if b, isC := constBool(st.Val); isC && !b {
+				clears = true
+			}
+		}
+	})
+	if !clears {
+		r.okTrivial(rule, "adding a dependency again does not clear its data-only flag", p.pos(amed.Pos()), fnName(amed), "no store of data=false: nothing to re-establish")
+		return
+	}
+	isSet := func(j ssa.Instruction) bool {
+		st, ok := j.(*ssa.Store)
+		if !ok || fieldKey(st.Addr) != "core.depInfo.data" {
+			return false
+		}
+		b, isC := constBool(st.Val)
+		return isC && b
+	}
+	n := 0
+	for _, fn := range p.Funcs("core") {
+		// a data adder: appends to a field whose name says data and calls AddDependency (directly or through one helper)
+		isData := false
+		eachInstr(fn, false, func(_ *ssa.Function, i ssa.Instruction) {
+			switch x := i.(type) {
+			case *ssa.Store:
+				k := strings.ToLower(fieldKey(x.Addr))
+				if strings.HasSuffix(k, ".data") && !strings.Contains(k, "depinfo") {
+					isData = true
+				}
+			case *ssa.MapUpdate:
+				k := strings.ToLower(fieldKeyOfLoad(x.Map))
+				if strings.HasSuffix(k, "nameddata") {
+					isData = true
+				}
+			}
+		})
+		if !isData {
+			continue
+		}
+		var calls []ssa.Instruction
+		var inFn []*ssa.Function
+		for _, ci := range callsInFn(fn, addDep) {
+			calls, inFn = append(calls, ci), append(inFn, fn)
+		}
+		// one level of helper
+		eachInstr(fn, false, func(_ *ssa.Function, i ssa.Instruction) {
+			cc := callCommon(i)
+			if cc == nil || cc.StaticCallee() == nil || cc.StaticCallee() == addDep || fnPkg(cc.StaticCallee()) != modPath+"/src/core" {
+				return
+			}
+			for _, ci := range callsInFn(cc.StaticCallee(), addDep) {
+				calls, inFn = append(calls, ci), append(inFn, cc.StaticCallee())
+			}
+		})
+		for k, ci := range calls {
+			n++
+			r.check(!existsPath(inFn[k], ci, nil, isSet), rule, fn.Name()+" marks the dependency data-only again after AddDependency", p.pos(ci.Pos()), fnName(inFn[k]), "no return is reachable from the AddDependency call without data = true", "after AddDependency (which clears the data-only flag of an entry that exists already) a path reaches the return without setting it again, e.g. when the label was known before: listing the same label twice among data turns it into a build-time dependency, its outputs enter the source hash, and the rule is rebuilt whenever the data changes")
+		}
+	}
+	if n == 0 {
+		r.unresolved(rule, "data adders of BuildTarget that call AddDependency")
+	}
+}
+
+// onlyOneHashMemo: RuleHash memoises exactly one value on the target, the hash before any post-build change. The hash
+// asked for with postBuild=true of a target its build can modify is recomputed every time (it is first asked for before
+// the post-build function has run, for the cache key).
+func (p *Prog) onlyOneHashMemo(r *Report) {
+	rule := "E7.post-build-hash-not-memoised"
+	RH := p.Fn("build", "RuleHash")
+	if RH == nil {
+		r.unresolved(rule, "build.RuleHash")
+		return
+	}
+	other := ""
+	eachInstr(RH, false, func(_ *ssa.Function, i ssa.Instruction) {
+		if st, ok := i.(*ssa.Store); ok {
+			k := fieldKey(st.Addr)
+			if strings.HasPrefix(k, "core.BuildTarget.") && k != "core.BuildTarget.RuleHash" {
+				other = k
+			}
+		}
+	})
+	r.check(other == "", rule, "RuleHash stores nothing on the target but BuildTarget.RuleHash", p.pos(RH.Pos()), fnName(RH), "one memo field", "RuleHash also memoises into "+other+": the post-build hash is first requested before the post-build function has run (for the cache key), so the memo holds the pre-modification value, that value is recorded, and the next invocation over an unchanged tree finds a different hash and re-runs the command")
 }
